@@ -13,9 +13,10 @@ def validate_trace(tag, module, defs, trace_path, timeout=1800):
     txt = open(logp, errors="replace").read()
     if st["ok"]:
         return True, st, None, ""
-    m = re.search(r'"TRACE-REJECTED at event",\s*(\d+),(.*?)>>\s*\n', txt, re.S)
+    m = re.search(r'"TRACE-REJECTED at event",\s*(\d+)\s*,', txt)
     if m:
-        return False, st, int(m.group(1)), " ".join(m.group(2).split())[:600]
+        tail = txt[m.end():m.end() + 800]
+        return False, st, int(m.group(1)), " ".join(tail.split())[:600]
     sys.stderr.write(txt[-3000:])
     raise ToolError("trace validation of %s failed without a rejection report (spec or tool error)" % module)
 
